@@ -60,6 +60,10 @@ CLAIMS = {
          'and the sampling loop stores e identically in every component (for moduli > 21: RESTRICTION found by the proof, see DESIGN.md); sample::uniform stays below each modulus. '
          'ASSUMED: the blake3 and rand crates (support of Uniform only), the unsafe unaligned-pointer word reads modelled as little-endian. '
          'Not covered: statistical quality / distinctness between seeds / freshness of entropy (not expressible as a contract), encrypt_zero plumbing, seed expansion of ciphertexts and keys.', '5 C16'),
+ 'C19': ('Coefficient placement of LWE extraction and assembly, as contracts on the real code: polymod::negacyclic_shift / negacyclic_shift_p compute X^s * c in Z_q[X]/(X^n+1) for every power-of-two n and every shift (coefficient i goes to (s+i) mod n, negated when floor((s+i)/n) is odd); '
+         'Evaluator::extract_lwe (coefficient-form branch verified, NTT branch reduced to it by the verified recursion over an abstract inverse transform) returns c1 = X^(2n-term) * ct[1] in every RNS component and c0[j] = coefficient `term` of component j of ct[0], copies level / scale / correction factor, and refuses invalid or wrong-size inputs; '
+         'LWECiphertext::assemble_lwe lays out a size-2 coefficient-form ciphertext with c0[j] as constant coefficient of component j (all other coefficients of polynomial 0 zero) and c1 as polynomial 1; a spec-level lemma composes the two (extract then assemble puts coefficient `term` at the constant position). '
+         'Not covered: that the assembled ciphertext DECRYPTS to the coefficient (needs the ring identity <X^-t c1, s> and noise), field_trace_inplace, pack_lwe_ciphertexts (unsafe aliasing, key switching), divide_by_poly_modulus_degree_inplace (iterator closures).', '5 C19'),
  'C15': ('Serializers without context (scalars, Vec<T>, Modulus, ParmsID, SchemeType, Plaintext, EncryptionParameters, byte-width packing helpers) are verified '
          'against an abstract model of std::io::{Read,Write} quantified over all implementations: Ok implies the complete encoding was written / exactly one encoding '
          'consumed, and no unwrap/panic is reachable. Context-dependent objects (ciphertexts, keys, containers) are not covered.', '5 C15'),
@@ -72,7 +76,7 @@ NOT_APPLICABLE = {
  'C18': 'agreement across n parties and all message delivery orders is a whole-history property; the per-call code sits behind iterator closures, context plumbing and serialization and no contract within reach connects it to "keys correspond to the sum of secret keys"',
 }
 
-PENDING = ['C07', 'C11', 'C12', 'C13', 'C19', 'C20']
+PENDING = ['C07', 'C11', 'C12', 'C13', 'C20']
 
 
 def main():
